@@ -86,6 +86,13 @@ def extJ : Ext → String × Bool × List (String × J)
   | .igmp h => ("igmp", true, [("vt", J.ofNat h.vt), ("mrt", J.ofNat h.mrt), ("csum", J.ofNat h.csum), ("addr", optNatJ h.addr),
       ("groups", J.arr (h.groups.map fun g => J.arr [J.ofNat g.type, J.ofNat g.addr, J.ofNats g.srcs, J.ofBytes g.aux])),
       ("extra", J.ofBytes h.extra)])
+  | .dhcp h => ("dhcp", true, [("op", J.ofNat h.op), ("htype", J.ofNat h.htype), ("hlen", J.ofNat h.hlen), ("hops", J.ofNat h.hops),
+      ("xid", J.ofNat h.xid), ("secs", J.ofNat h.secs), ("flags", J.ofNat h.flags), ("ciaddr", J.ofNat h.ciaddr), ("yiaddr", J.ofNat h.yiaddr),
+      ("siaddr", J.ofNat h.siaddr), ("giaddr", J.ofNat h.giaddr), ("chaddr", J.ofBytes (if h.hlen = 6 then h.chaddr.take 6 else h.chaddr)),
+      ("sname", J.ofBytes h.sname), ("file", J.ofBytes h.file), ("magic", J.ofBytes h.magic),
+      ("options", match h.options with
+        | some os => J.arr (os.map fun (c, d) => J.arr [J.ofNat c, J.ofBytes d])
+        | none => J.null)])
 
 def layer (k : String) (parsed : Bool) (raw : Option Bytes) (attrs : List (String × J)) : J :=
   J.mk ([("k", J.str k), ("parsed", J.bool parsed)] ++ (match raw with | some r => [("raw", J.ofBytes r)] | none => []) ++ attrs)
